@@ -1232,6 +1232,12 @@ func (m *Model) numberMethod(a *Node, item any, next emitFn, isDecimal bool) *me
 		return suppErr("precision out of integer range")
 	}
 	if p < 1 || p > 1000 {
+		if a.B != nil && (a.B.I > math.MaxInt32 || a.B.I < math.MinInt32) {
+			// two invalid arguments: whether the range of the precision (non-suppressible) or the
+			// conversion of the scale to an integer (suppressible) is checked first is fixed nowhere
+			// (the implementation checks the precision first, PostgreSQL converts both first)
+			return openErr("invalid precision %d and a scale beyond the integers", p)
+		}
 		return hardErr("NUMERIC precision %d must be between 1 and 1000", p)
 	}
 	if a.B != nil {
